@@ -59,6 +59,9 @@ type Sched struct {
 
 	// fault at a yield: called with the scheduler lock NOT held
 	Fault func(g *G, site int) FaultAction
+	// FlockFault, when set, may make a blocking lock request of goroutine g fail
+	// with the returned error (EINTR, ENOLCK) instead of being performed
+	FlockFault func(g *G, fd int) error
 
 	// lock hook observations
 	LockWaits  uint64
@@ -380,6 +383,12 @@ func (s *Sched) Flock(fd int, how int) error {
 	if g == nil || how&syscall.LOCK_NB != 0 || how&(syscall.LOCK_EX|syscall.LOCK_SH) == 0 {
 		return syscall.Flock(fd, how)
 	}
+	if ff := s.FlockFault; ff != nil {
+		// a failing system call: the lock request itself returns an error
+		if err := ff(g, fd); err != nil {
+			return err
+		}
+	}
 	for {
 		err := syscall.Flock(fd, how|syscall.LOCK_NB)
 		if err != syscall.EWOULDBLOCK {
@@ -662,4 +671,13 @@ func fdCount(path string) int {
 		}
 	}
 	return n
+}
+
+// Current returns the scheduler's record of the calling goroutine (nil for a
+// goroutine the scheduler does not know).
+func (s *Sched) Current() *G {
+	id := getg()
+	s.mu.Lock()
+	defer s.mu.Unlock()
+	return s.gs[id]
 }
